@@ -1337,7 +1337,7 @@ func GoType2ThriftType(val interface{}) (Type, error) {
 		return I32, nil
 	case reflect.Int64, reflect.Uint64, reflect.Int, reflect.Uint:
 		return I64, nil
-	case reflect.Float64:
+	case reflect.Float64, reflect.Float32:
 		return DOUBLE, nil
 	case reflect.String:
 		return STRING, nil
